@@ -436,6 +436,8 @@ impl Shared {
             ZeroReceiveMax,
             /// the broker starts a fresh session (session present = 0) and the CONNACK carries an illegal value
             ZeroReceiveMaxFresh,
+            /// session present = 1 although the broker cannot resume (e.g. in answer to a clean start)
+            ResumeAnyway,
         }
         let mut opts: Vec<(V, bool)> = Vec::new();
         if can_resume {
@@ -445,6 +447,9 @@ impl Shared {
             }
         } else {
             opts.push((V::Fresh, false));
+        }
+        if bc.bad_handshake && self.explore() && !can_resume {
+            opts.push((V::ResumeAnyway, true));
         }
         if bc.bad_handshake && self.explore() {
             for v in [
@@ -479,14 +484,14 @@ impl Shared {
             }
         };
         match opts[i].0 {
-            V::Resume | V::Fresh => {
+            V::Resume | V::Fresh | V::ResumeAnyway => {
                 let rm = bc.receive_max[pick(self, bc.receive_max.len())];
                 let mp = bc.max_packet[pick(self, bc.max_packet.len())];
                 let mq = bc.max_qos[pick(self, bc.max_qos.len())];
                 let ka = bc.server_keepalive[pick(self, bc.server_keepalive.len())];
                 let id = bc.assigned_id[pick(self, bc.assigned_id.len())];
                 let props = broker::connack_props(rm, mp, mq, ka, id);
-                let pkt = self.broker.connack(e, opts[i].0 == V::Resume, props);
+                let pkt = self.broker.connack(e, opts[i].0 != V::Fresh, props);
                 self.push_inbound(c, pkt);
             }
             V::Reject(code) => {
@@ -754,13 +759,14 @@ impl Shared {
 }
 
 /// Malformed inbound data, one per class listed in property C08.
-pub const GARBAGE: [&[u8]; 6] = [
+pub const GARBAGE: [&[u8]; 7] = [
     &[0xF0, 0x00],                               // AUTH: unsupported type
     &[0x40, 0x81, 0x00, 0x00, 0x01],             // non-canonical remaining length
     &[0xD1, 0x00],                               // PINGRESP with flags
     &[0x36, 0x06, 0x00, 0x01, 0x41, 0x00, 0x01, 0x00], // QoS 3
     &[0x40, 0x01, 0x00],                         // PUBACK truncated
     &[0xD0, 0x01, 0x00],                         // trailing byte
+    &[0x20, 0x03, 0x00, 0x00, 0x00],             // well-formed but invalid here: a second CONNACK
 ];
 
 fn mask_all_but_first(n: usize) -> u64 {
